@@ -310,9 +310,9 @@ class SymArray:
         return bool(self.vals.ravel()[0])
 
     def __int__(self):
-        if self.size != 1:
-            raise TypeError("only length-1 arrays can be converted to Python scalars")
-        return int(self.vals.ravel()[0])
+        if self.ndim != 0:      # NumPy >= 2.x: only 0-dimensional arrays convert
+            raise TypeError("only 0-dimensional arrays can be converted to Python scalars")
+        return int(self.vals[()])
 
     def __index__(self):
         if self.ndim != 0:
@@ -320,7 +320,9 @@ class SymArray:
         return int(self.vals[()])
 
     def __float__(self):
-        return float(self.vals.ravel()[0])
+        if self.ndim != 0:
+            raise TypeError("only 0-dimensional arrays can be converted to Python scalars")
+        return float(self.vals[()])
 
     def _wrap(self, v, dtype=None):
         dtype = dtype or self.dtype
